@@ -182,6 +182,7 @@ void unpoison_fiber(Fiber* f);
 // net (sk_net.cpp)
 void net_reset_all();
 void net_kill_proc(int pid);
+std::int64_t net_next_event_time();  // earliest future delivery on any open socket
 std::shared_ptr<Sock> sock_of(int fd);
 bool is_sim_fd(int fd);
 
